@@ -92,6 +92,7 @@ def cases(draw, tier="quick"):
     th["GF"] = draw(st.sampled_from([1.1663787e-05, 1.0, 2.5e-5]))
     if "MW" not in th or draw(st.booleans()):
         th["MW"] = round(draw(st.floats(20.0, 200.0)), 3)
+    configs.split_orders(draw, th, meta)
     return cfg
 
 
